@@ -45,7 +45,7 @@ pub const T_CONT: u8 = 9;
 pub const PREFACE: &[u8] = b"PRI * HTTP/2.0\r\n\r\nSM\r\n\r\n";
 
 pub fn free_port() -> u16 {
-    TcpListener::bind("127.0.0.1:0").unwrap().local_addr().unwrap().port()
+    verif_harness::claim_port()
 }
 
 pub fn frame(t: u8, flags: u8, sid: u32, payload: &[u8]) -> Vec<u8> {
